@@ -16,7 +16,7 @@ RULE = (
     "refresh histories (length 1..6, repeats, zeros, pinned/unpinned) on bare MeshOperators. Non-trivial = at least one in-place refresh; "
     "distinct = scenario digests"
 )
-BUDGET = {"quick": {"runs": 600, "chunk": 10}, "thorough": {"runs": 30000, "chunk": 20}}
+BUDGET = {"quick": {"runs": 600, "chunk": 10}, "thorough": {"runs": 90000, "chunk": 20}}
 COMPONENTS = {"real": ["MeshOperators.set_link_exponents / build_*", "TDGLSolver.update refresh triggers"], "stub": ["wall clock"]}
 
 
